@@ -68,9 +68,16 @@ func (r *run) judge(o outcome, leakFree bool) {
 	if r.strange.Load() != 0 {
 		r.viol("C10/integrity/unknown-item-or-value", "a mapper or the reducer received an item/value that was never generated/written", o)
 	}
-	if clean {
+	if clean && p.Park != nil && p.Park.Ending != eNone {
+		// the planned ending never took place (the scenario was not reached): the generator of such a
+		// plan may return without having emitted every item, so the exact rules do not apply
+		r.c.Obs("genpark_ending_never_took_place", 1)
+	} else if clean {
 		r.c.Obs("clean_runs", 1)
 		r.judgeClean(o)
+		if p.Park != nil {
+			r.judgeCleanPark(o)
+		}
 	} else {
 		r.c.Obs("faulted_runs", 1)
 		r.judgeFaulted(o, cancels, panics, writes, ctxMayHaveEnded, ctxEndedInRun, ctxRet)
@@ -96,9 +103,9 @@ func (r *run) judge(o outcome, leakFree bool) {
 		r.c.Obs("runs_with_two_or_more_user_panics", 1)
 	}
 	nontrivial := r.faultHit.Load() == 1 || moreReached > 0 || r.cancelParked.Load() != 0 || r.ctxHit.Load() == 1 || p.ctxBeforeCall() ||
-		(clean && p.Items > p.effWorkers()) || (timerCtx && isCtxErr(o.Err))
+		(clean && p.Items > p.effWorkers()) || (timerCtx && isCtxErr(o.Err)) || r.parkNontrivial()
 	r.c.Sig(nontrivial, p.API, p.Items, p.Workers, p.NoWorkers, p.Fan, p.Red, p.Kind, p.At, p.Then, p.Ctx, p.CtxPos,
-		p.SecondKind, p.SecondAt, p.Inflight, o.Kind, leakFree, p.Errs, p.PanicVal, p.More)
+		p.SecondKind, p.SecondAt, p.Inflight, o.Kind, leakFree, p.Errs, p.PanicVal, p.More, r.parkSig())
 	r.c.Obs("outcome_"+o.Kind, 1)
 	if r.faultHit.Load() == 1 {
 		r.c.Obs("fault_reached_"+strings.ReplaceAll(p.Kind, " ", "_")+"_"+p.At.Role, 1)
